@@ -16,24 +16,66 @@ class ContractError(Exception):
     pass
 
 
+def _positional_adapter(original, fn, special=("result", "OLD")):
+    """Adapt a monitor function written with the parameter names the function under test had when the
+    monitor was written (e.g. post(rate, accel, time, accum, result)) to icontract's name-independent
+    protocol (_ARGS, _KWARGS): values are bound to the CURRENT signature and handed over by position,
+    so renaming a parameter or appending a private one in the code under test is not a monitor fault."""
+    import inspect
+    try:
+        sig = inspect.signature(original)
+    except (TypeError, ValueError):
+        sig = None
+    params = list(inspect.signature(fn).parameters)
+    n_plain = len([p for p in params if p not in special])
+    wants = [p for p in params if p in special]
+
+    def values(args, kwargs):
+        if sig is not None:
+            try:
+                bound = sig.bind(*args, **kwargs)
+                bound.apply_defaults()
+                vals = list(bound.arguments.values())
+            except TypeError:
+                vals = list(args) + list(kwargs.values())
+        else:
+            vals = list(args) + list(kwargs.values())
+        vals = vals[:n_plain]
+        return vals + [None] * (n_plain - len(vals))
+
+    if wants == ["result", "OLD"] or wants == ["OLD", "result"]:
+        def cond(_ARGS, _KWARGS, result, OLD):
+            return fn(*values(_ARGS, _KWARGS), result=result, OLD=OLD)
+    elif wants == ["result"]:
+        def cond(_ARGS, _KWARGS, result):
+            return fn(*values(_ARGS, _KWARGS), result=result)
+    elif wants == ["OLD"]:
+        def cond(_ARGS, _KWARGS, OLD):
+            return fn(*values(_ARGS, _KWARGS), OLD=OLD)
+    else:
+        def cond(_ARGS, _KWARGS):
+            return fn(*values(_ARGS, _KWARGS))
+    return cond
+
+
 def install(owner, name, post=None, snapshots=None, pre=None, counter=None, ctx=None):
     """Replace owner.name by an icontract-decorated version of the same function.
 
-    post(…args by name…, result[, OLD]) is called after each call; snapshots is a
-    dict name -> capture(args by name) evaluated before the call and available as
-    OLD.<name>.  Exceptions escaping the function are reported to
-    ctx.count('<counter>.raised') by a plain wrapper outside icontract (icontract
-    does not evaluate post-conditions after a raise)."""
+    post(...positional arguments in the function's order..., result[, OLD]) is called after each
+    call; snapshots is a dict name -> capture(...arguments...) evaluated before the call and available
+    as OLD.<name>.  The monitor functions are bound BY POSITION (see _positional_adapter).
+    Exceptions escaping the function are reported to ctx.count('<counter>.raised') by a plain wrapper
+    outside icontract (icontract does not evaluate post-conditions after a raise)."""
     original = getattr(owner, name)
     func = original
     label = counter or ("%s.%s" % (getattr(owner, "__name__", owner), name))
     if post is not None:
-        func = icontract.ensure(post, error=ContractError)(func)
+        func = icontract.ensure(_positional_adapter(original, post), error=ContractError)(func)
     if snapshots:
         for snap_name, capture in snapshots.items():
-            func = icontract.snapshot(capture, name=snap_name)(func)
+            func = icontract.snapshot(_positional_adapter(original, capture), name=snap_name)(func)
     if pre is not None:
-        func = icontract.require(pre, error=ContractError)(func)
+        func = icontract.require(_positional_adapter(original, pre), error=ContractError)(func)
     decorated = func
 
     @functools.wraps(original)
